@@ -71,12 +71,12 @@ struct ConsumerOut {
 pub fn run(ctx: &mut Ctx) -> Result<RunOut, Violation> {
     let focus = ctx.focus;
     let t = &mut ctx.tape;
-    let chunk = [1usize, 2, 3, 4, 7, 16][t.draw(6) as usize];
+    let chunk = if crate::core::deep() { [1usize, 2, 3, 4, 7, 16, 5, 64, 4096][t.draw(9) as usize] } else { [1usize, 2, 3, 4, 7, 16][t.draw(6) as usize] };
     let gzip = focus != "C10" && t.chance(1, 4) || focus == "C10" && t.chance(1, 8);
     let level = 1 + t.draw(9);
     let seed = t.draw(u32::MAX) as u64;
     // Producer program: up to 6 operations.
-    let n_ops = 1 + t.draw(6);
+    let n_ops = 1 + t.draw(if crate::core::deep() { 10 } else { 6 });
     let mut prog = Vec::new();
     let allow_abort = true;
     for _ in 0..n_ops {
@@ -102,7 +102,7 @@ pub fn run(ctx: &mut Ctx) -> Result<RunOut, Violation> {
     // Consumer policy, pre-drawn so that the threads only need the tape for scheduling.
     let fresh: Vec<bool> = (0..48).map(|_| t.chance(1, 3)).collect();
     let spurious_at: Vec<bool> = (0..48).map(|_| t.chance(1, 6)).collect();
-    let spurious_budget = t.draw(3) as u64;
+    let spurious_budget = t.draw(if crate::core::deep() { 5 } else { 3 }) as u64;
     let overpoll = if focus == "C20" { 1 + t.draw(4) } else { t.draw(3) };
     let body_drop_at: Option<u32> = if focus == "C11" && t.chance(1, 2) { Some(t.draw(6)) } else { None };
     let trace = ctx.tracing();
@@ -135,6 +135,7 @@ pub fn run(ctx: &mut Ctx) -> Result<RunOut, Violation> {
                     let mut w = Some(w);
                     let mut dead = false;
                     let mut unflushed: Option<usize> = Some(0);
+                    let mut since_flush = 0usize;
                     for op in prog {
                         let seq0 = sched.note("op-begin", 0);
                         sched.yield_point("op", 0);
@@ -155,11 +156,9 @@ pub fn run(ctx: &mut Ctx) -> Result<RunOut, Violation> {
                                 match &r {
                                     Ok(k) => {
                                         o.accepted.extend_from_slice(&buf[..(*k).min(n)]);
+                                        since_flush += *k;
                                         if dead && n > 0 {
                                             o.write_after_dead_ok = Some(format!("write({n}) succeeded after an earlier failure/abort"));
-                                        }
-                                        if body_gone_before && !is_gzip && n >= chunk && n > 0 {
-                                            o.fail_after_body_drop_missing = Some(format!("write({n}) with chunk size {chunk}, invoked after the body had been dropped, returned Ok({k})"));
                                         }
                                         unflushed = match unflushed {
                                             Some(u) if u + k < chunk => Some(u + k),
@@ -175,17 +174,18 @@ pub fn run(ctx: &mut Ctx) -> Result<RunOut, Violation> {
                             }
                             POp::Flush => {
                                 let Some(wr) = w.as_mut() else { break };
-                                let surely = unflushed.map(|u| u > 0).unwrap_or(false);
+                                let surely = if is_gzip { since_flush > 0 } else { unflushed.map(|u| u > 0).unwrap_or(false) };
                                 let r = wr.flush();
                                 let mut o = pout.lock().unwrap();
                                 match &r {
                                     Ok(()) => {
                                         o.flushed = o.accepted.len();
                                         unflushed = Some(0);
+                                        since_flush = 0;
                                         if dead {
                                             o.write_after_dead_ok = Some("flush succeeded after an earlier failure/abort".into());
                                         }
-                                        if body_gone_before && (is_gzip || surely) {
+                                        if body_gone_before && surely {
                                             o.fail_after_body_drop_missing = Some("a flush with bytes to hand over, invoked after the body had been dropped, returned Ok".into());
                                         }
                                     }
@@ -464,8 +464,13 @@ pub fn run(ctx: &mut Ctx) -> Result<RunOut, Violation> {
             if c.log.too_many_polls {
                 return violation("C10", "unbounded-polls", describe(&st));
             }
-            if let Some(i) = c.pending_after_writer_gone {
-                return violation("C10", "pending-after-writer-gone", format!("poll #{} returned Pending although the writer had already been dropped/aborted; {}", i + 1, describe(&st)));
+            if c.pending_after_writer_gone.is_some() {
+                // Not wrong in itself (a body may wake itself); a Pending that is never followed
+                // by a wake shows up as a lost wake-up, one that repeats as unbounded polls.
+                ctx.stats.bump("c10_pending_after_writer_gone_(woken_later)");
+            }
+            if c.polls_after_writer_gone as usize > c.log.steps.len().min(64) + 8 {
+                return violation("C10", "unbounded-polls", describe(&st));
             }
             if c.body_dropped_seq.is_none() {
                 if c.log.terminal.is_none() {
